@@ -118,9 +118,11 @@ fn compare_csr<Ty: EdgeType>(g: &Csr<(), i32, Ty, u32>, m: &CsrModel, bad: &mut 
         }
         refs += want.len();
     }
+    // edge_references reports each edge once (edge_count of them; an undirected edge is stored in two rows)
     let all = (&g).edge_references().count();
-    if all != refs {
-        bad.push(format!("edge_references yields {} entries, rows hold {}", all, refs));
+    let _ = refs;
+    if all != g.edge_count() {
+        bad.push(format!("edge_references yields {} entries, edge_count is {}", all, g.edge_count()));
     }
 }
 
